@@ -24,6 +24,14 @@ T = {
     "C16-2": ("C16", "sh out/apply_demo.sh out/2/demo.rs", ["cargo test -p fontir --offline --lib seeded_"]),
     "C17-1": ("C17", "git apply out/1/demo_e2e.patch", ["cargo test -p fontc --offline --lib bbox_of_triply_nested_offset_components"]),
     "C17-2": ("C17", "git apply out/2/demo.patch", ["cargo test -p fontc --offline --lib avg_char_width_ignores_trailing_zero_width_glyphs"]),
+    "C07b-1": ("C07b", "python3 /verif/kit/insert_demo.py out/1/demo.rs fontdrasil/src/variations.rs", ["cargo test -p fontdrasil --offline --lib c07_demo1"]),
+    "C07b-2": ("C07b", "python3 /verif/kit/insert_demo.py out/2/demo.rs fontdrasil/src/variations.rs", ["cargo test -p fontdrasil --offline --lib c07_demo2"]),
+    "C10b-1": ("C10b", "python3 /verif/kit/insert_demo.py out/1/demo.rs fontbe/src/features/marks.rs", ["cargo test -p fontbe --offline --lib abvm_covers_anchors_not_named_top_or_bottom"]),
+    "C10b-2": ("C10b", "python3 /verif/kit/insert_demo.py out/2/demo.rs fontir/src/propagate_anchors.rs", ["cargo test -p fontir --offline --lib single_axis_flip_renames_only_that_axis"]),
+    "C08b-1": ("C08b", "python3 /verif/kit/insert_demo.py out/1/demo.rs fontbe/src/avar.rs", ["cargo test -p fontbe --offline --lib demo_flat_segment"]),
+    "C08b-2": ("C08b", "python3 /verif/kit/insert_demo.py out/2/demo.rs fontbe/src/fvar.rs", ["cargo test -p fontbe --offline --lib demo_sparse_named_instance_stays_within_axis_ranges"]),
+    "C04-1": ("C04", "python3 /verif/kit/insert_demo.py out/1/demo.rs fontbe/src/mvar.rs", ["cargo test -p fontbe --offline --lib c04_demo"]),
+    "C04-2": ("C04", "python3 /verif/kit/insert_demo.py out/2/demo.rs fontbe/src/metric_variations.rs --append", ["cargo test -p fontbe --offline --lib c04_demo"]),
     "C02-1": ("C02", "git apply out/1/demo.patch", ["cargo test -p fontc --offline --lib gather_be_kerning_is_ordered_after_every_kern_fragment", "cargo test -p fontc --offline --lib compiles_when_kern_fragments_run_first"]),
     "C02-2": ("C02", "git apply out/2/demo.patch", ["cargo test -p fontc --offline --lib gather_ir_kerning_cannot_start_before_kern_instances_are_spawned"]),
     "C03-1": ("C03", "git apply out/1/demo.patch", ["cargo test -p fontc --offline --lib composite_with_y_stretched_component_matches_master"]),
@@ -48,7 +56,7 @@ def tests_summary(out):
 def main():
     for mid in sys.argv[1:]:
         wt, demo_cmd, tests = T[mid]
-        n = mid.split("-")[1]
+        n = mid.split("-")[-1]
         w = f"/tmp/mut/{wt}"
         rec = {"id": mid, "worktree": w}
         sh("git checkout -- . && git clean -fdq -e out -e target", w)
